@@ -160,8 +160,14 @@ def _run_a(case):
 
 # ----------------------------------------------------------------------------------------------- part b
 def _spec(case, gradient):
-    sp = dict(_scene_specs()[case["scene"]])
+    import copy
+
+    sp = copy.deepcopy(_scene_specs()[case["scene"]])
     sp["steps"] = case["T"]
+    for o in sp.get("sources", []) + sp.get("detectors", []):  # explicit on-step lists are cut to the run length
+        sw = o.get("switch")
+        if sw and "fixed_on_time_steps" in sw:
+            sw["fixed_on_time_steps"] = [t for t in sw["fixed_on_time_steps"] if t < case["T"]]
     sp["seed"] = case.get("seed", 0)
     sp["gradient"] = gradient
     return sp
